@@ -216,6 +216,7 @@ func cmdCheck(args []string) int {
 	verbose := fs.Bool("v", false, "verbose")
 	noEvidence := fs.Bool("no-evidence", false, "do not write the evidence file")
 	maxPathsOv := fs.Int("maxpaths", 0, "override the path limit (probing)")
+	replayDir := fs.String("replaydir", "", "directory for counter-example scripts (default <verif>/replays)")
 	var id string
 	if len(args) > 0 && !strings.HasPrefix(args[0], "-") {
 		id = args[0]
@@ -394,7 +395,11 @@ func cmdCheck(args []string) int {
 				continue
 			}
 			perMsg[v.Msg]++
-			p := filepath.Join(*verif, "replays", id, fmt.Sprintf("%s_%d_%d.json", es.Entry, ei, len(cands)))
+			rd := *replayDir
+			if rd == "" {
+				rd = filepath.Join(*verif, "replays")
+			}
+			p := filepath.Join(rd, id, fmt.Sprintf("%s_%d_%d.json", es.Entry, ei, len(cands)))
 			cands = append(cands, cand{v: v, spec: es, path: p})
 		}
 		for i, w := range res.Witnesses {
